@@ -8,11 +8,20 @@ import Otel.C01.Model
 namespace Otel.C01
 
 /-- internal (non-API, non-exporter-return) labels in priority order; blocked senders first (Go hands a
-blocked sender's item over at the moment a receiver frees a slot), oldest first -/
-def internalOrder (s : St) : List Lbl :=
+blocked sender's item over at the moment a receiver frees a slot), oldest first. Where the Go code itself
+chooses at random — a `select` with several ready cases — the variant number `v` picks the preference:
+bit 0: the worker prefers `<-stopCh` over `<-queue` in processQueue; bit 1: a waiting ForceFlush prefers
+`<-stopCh` over `<-flushCh`. The driver accepts an observation that matches any variant. -/
+def internalOrder (v : Nat) (s : St) : List Lbl :=
+  let worker : List Lbl := if v % 2 = 1 then [.wStop, .wRecv, .wAppend, .wExportStart, .wDrainEmpty]
+                           else [.wRecv, .wAppend, .wExportStart, .wStop, .wDrainEmpty]
+  let ffStop : List Lbl := s.ffs.reverse.map fun f => .ffStopWins f.fid
+  let ffExp : List Lbl := s.ffs.reverse.map fun f => .ffExportStart f.fid
   (s.inflight.reverse.map .send) ++
-  [.wRecv, .wAppend, .wExportStart, .wStop, .wDrainEmpty] ++
-  (s.ffs.reverse.flatMap fun f => [.ffCheck f.fid, .ffEnqueue f.fid, .ffStopWins f.fid, .ffExportStart f.fid]) ++
+  -- a ForceFlush blocked on sending its marker is a blocked sender too: it is served as soon as a slot is free,
+  -- before the worker looks at the queue again (in the controlled scripts it always arrived after the blocked producers)
+  (s.ffs.reverse.flatMap fun f => [.ffCheck f.fid, .ffEnqueue f.fid]) ++
+  (if (v / 2) % 2 = 1 then ffStop ++ worker ++ ffExp else worker ++ ffExp ++ ffStop) ++
   [.sdStore, .sdClose, .sdExporterShutdown, .sdReturnOk]
 
 def firstEnabled (s : St) : List Lbl → Option St
@@ -21,10 +30,10 @@ def firstEnabled (s : St) : List Lbl → Option St
     | some s' => some s'
     | none => firstEnabled s ls
 
-def settle : Nat → St → St
+def settle (v : Nat) : Nat → St → St
   | 0, s => s
-  | fuel + 1, s => match firstEnabled s (internalOrder s) with
-    | some s' => settle fuel s'
+  | fuel + 1, s => match firstEnabled s (internalOrder v s) with
+    | some s' => settle v fuel s'
     | none => s
 
 theorem firstEnabled_step (s s' : St) (ls : List Lbl) (h : firstEnabled s ls = some s') :
@@ -39,8 +48,8 @@ theorem firstEnabled_step (s s' : St) (ls : List Lbl) (h : firstEnabled s ls = s
       exact ⟨l, hs1⟩
     · exact ih h
 
-theorem settle_reachable {cap maxB : Nat} {blocking : Bool} (fuel : Nat) (s : St)
-    (h : Reachable cap maxB blocking s) : Reachable cap maxB blocking (settle fuel s) := by
+theorem settle_reachable {cap maxB : Nat} {blocking : Bool} (v fuel : Nat) (s : St)
+    (h : Reachable cap maxB blocking s) : Reachable cap maxB blocking (settle v fuel s) := by
   induction fuel generalizing s with
   | zero => exact h
   | succ n ih =>
